@@ -9,7 +9,7 @@ from typing import Any, ClassVar, Dict, List, Literal, Optional, Tuple, Union
 from prettytable import MARKDOWN, PrettyTable
 from pydantic import Field, validate_call
 
-from primaite.interface.request import RequestResponse
+from primaite.interface.request import RequestFormat, RequestResponse
 from primaite.simulator.core import RequestManager, RequestType, SimComponent
 from primaite.simulator.network.hardware.base import IPWiredNetworkInterface, UserManager, UserSessionManager
 from primaite.simulator.network.hardware.node_operating_state import NodeOperatingState
@@ -317,10 +317,9 @@ class AccessControlList(SimComponent):
         # 4: destination ip address (str castable to IPV4Address (e.g. '10.10.1.2'))
         # 5: destination port (str name of a Port (e.g. "HTTP"))
         # 6: position (int)
-        rm.add_request(
-            "add_rule",
-            RequestType(
-                func=lambda request, context: RequestResponse.from_bool(
+        def _add_rule_action(request: RequestFormat, context: Dict) -> RequestResponse:
+            try:
+                return RequestResponse.from_bool(
                     self.add_rule(
                         action=ACLAction[request[0]],
                         protocol=None if request[1] == "ALL" else request[1],
@@ -333,13 +332,18 @@ class AccessControlList(SimComponent):
                         position=int(request[8]),
                     )
                 )
-            ),
-        )
+            except (KeyError, ValueError, IndexError, TypeError) as e:
+                # (an unknown action / protocol / port name, a malformed address or position: the rule is not added)
+                return RequestResponse(status="failure", data={"reason": f"Invalid ACL rule: {e}"})
 
-        rm.add_request(
-            "remove_rule",
-            RequestType(func=lambda request, context: RequestResponse.from_bool(self.remove_rule(int(request[0])))),
-        )
+        def _remove_rule_action(request: RequestFormat, context: Dict) -> RequestResponse:
+            try:
+                return RequestResponse.from_bool(self.remove_rule(int(request[0])))
+            except (ValueError, IndexError, TypeError) as e:
+                return RequestResponse(status="failure", data={"reason": f"Invalid ACL position: {e}"})
+
+        rm.add_request("add_rule", RequestType(func=_add_rule_action))
+        rm.add_request("remove_rule", RequestType(func=_remove_rule_action))
         return rm
 
     def describe_state(self) -> Dict:
